@@ -4,12 +4,13 @@
 cd "$(dirname "$0")"
 export CARGO_NET_OFFLINE=true
 (cd lean && lake build bnum_driver 2>&1 | tail -2)
-for f in lean/Bnum/Props/*.lean; do
-  m=$(basename "$f" .lean)
-  (cd lean && lake build "Bnum.Props.$m" 2>&1 | tail -1)
-done
-# every bin except `widths` (1024 instantiations, ~3.5 min per profile: built on demand by the thorough tier)
-BINS=$(cd harness/src/bin && ls *.rs | sed 's/\.rs$//' | grep -v '^widths$' | sed 's/^/--bin /' | tr '\n' ' ')
+# one invocation for all property and audit modules: Lake builds independent modules in parallel
+MODS=$(cd lean/Bnum && ls Props/*.lean Audit/*.lean | sed 's/\.lean$//; s#/#.#; s/^/Bnum./' | tr '\n' ' ')
+(cd lean && lake build $MODS 2>&1 | tail -3)
+# every bin except the all-widths ones (1024 instantiations each): those use the unoptimised profiles below
+BINS=$(cd harness/src/bin && ls *.rs | sed 's/\.rs$//' | grep -v '^widths' | grep -v 'w$' | sed 's/^/--bin /' | tr '\n' ' ')
 (cd harness && cargo build --offline $BINS 2>&1 | tail -2; cargo build --offline $BINS --profile rel 2>&1 | tail -2)
+# all-widths sweep bins used by the quick tier (tools/gen_widths.py): opt-level 0, under a minute each
+(cd harness && cargo build --offline --bin widths --bin widths2 --bin widths3 --profile w0 2>&1 | tail -1; cargo build --offline --bin widths --bin widths2 --bin widths3 --profile w0rel 2>&1 | tail -1)
 (cd harness && cargo +nightly build --offline --bin c15 --features nightly --target-dir target/nightly 2>&1 | tail -1)
 exit 0
